@@ -275,6 +275,11 @@ func (mz *Merklizer) UnmarshalBinary(in []byte) error {
 		return err
 	}
 
+	// every encoded entry takes at least one byte of input
+	if entriesLen < 0 || entriesLen > len(in) {
+		return fmt.Errorf("invalid number of entries: %v", entriesLen)
+	}
+
 	entries := make([]RDFEntry, entriesLen)
 	mz.entries = make(map[string]RDFEntry, entriesLen)
 
